@@ -41,14 +41,10 @@ impl<T> Definitions<T> {
         self.inner.is_empty()
     }
 
-    /// Retrieve a definition, if it exists; fail if not resolved
+    /// Retrieve a definition, if it exists and is resolved. The 'None' state is transient during
+    /// registration, but can also come from a blueprint file declaring a `null` definition.
     pub fn lookup(&self, reference: &Reference) -> Option<&T> {
-        self.inner
-            .get(&reference.as_key())
-            .map(|v| v
-              .as_ref()
-              .expect("All registered definitions are 'Some'. 'None' state is only transient during registration")
-            )
+        self.inner.get(&reference.as_key()).and_then(|v| v.as_ref())
     }
 
     /// Retrieve a definition, if it exists and is resolved.
